@@ -13,7 +13,7 @@
 (* Restart is judged by the property itself (restored graph \in allowed).              *)
 EXTENDS FsPersist, TraceBase
 
-tvars == <<dir, ddir, pend, vol, dur, up, busy, cur, nimp, mem, okG, allowed, fresh, l, sid, used>>
+tvars == <<dir, ddir, pend, vol, dur, up, busy, cur, nimp, mem, okG, allowed, fresh, l, sid, used, failed>>
 
 \* observed listing agrees with the model's (the graph of a torn file cannot be observed)
 EntryOK(o, c) == /\ o.st = c.st
@@ -22,10 +22,12 @@ ObsDirOK == LET L == Listing(dir', vol') IN \A n \in Names : EntryOK(Ev.obs.dir[
 SyncedOK(S) == SeqToSet(Ev.obs.synced) = S
 
 TInit == FPInit /\ TBInit
-T_Reset == /\ ResetBook
+ModelReset ==
            /\ dir' = NoDir /\ ddir' = NoDir /\ pend' = <<>> /\ vol' = <<>> /\ dur' = <<>>
            /\ up' = TRUE /\ busy' = FALSE /\ cur' = 0 /\ nimp' = 0 /\ mem' = {} /\ okG' = {{}}
            /\ allowed' = {{}} /\ fresh' = FALSE
+T_Reset == ResetBook /\ ModelReset
+T_Fail == FailBook /\ ModelReset
 
 T_Import == IsEv("Import") /\ Ev.res = "begin" /\ Import(Ev.k) /\ ObsDirOK /\ SyncedOK({}) /\ Same
 
@@ -57,6 +59,6 @@ T_Restart ==
        \/ KF_C14_OnlyLastImportKept_Seen(RestoredG) /\ KF("KF_C14_OnlyLastImportKept")
     /\ ObsDirOK
 
-TNext == T_Reset \/ T_Import \/ T_Step \/ T_Ack \/ T_Crash \/ T_PowerLoss \/ T_Restart
+TNext == T_Fail \/ T_Reset \/ T_Import \/ T_Step \/ T_Ack \/ T_Crash \/ T_PowerLoss \/ T_Restart
 TSpec == TInit /\ [][TNext]_tvars
 =============================================================================
